@@ -1498,6 +1498,17 @@ def p_act( ctx ):
             res.bad( csrc, brk_[0], 'client.__next__ leaves the loop over its framing engine with `break`', 'with a chunk boundary just ahead of the last byte of a reply frame the frame machine already reports terminal: the client returns a payload one byte short, drops the engine, and parses the late byte as the start of a new frame' )
         else:
             res.ok( csrc, e_.stmt, 'client.__next__: the loop over the framing engine is left only by exhaustion or by `return None`' )
+        # ... and over UDP that early exit ( "wait for more input" ) is refused: a datagram carries a whole frame; one that ends inside a frame
+        # is a failed response - kept waiting, it is completed from the NEXT reply's datagram and delivers spliced garbage with status 0
+        waits_ = [ r_ for r_ in ast.walk( e_.stmt ) if isinstance( r_, ast.Return ) and ( r_.value is None or ( isinstance( r_.value, ast.Constant ) and r_.value.value is None )) ]
+        for r_ in waits_:
+            blk = csrc.parent.get( r_ )
+            sibs = blk.body if isinstance( blk, ( ast.If, ast.For, ast.While )) and r_ in blk.body else []
+            guard_ = [ a_ for a_ in sibs[:sibs.index( r_ )] if isinstance( a_, ( ast.Assert, ast.If )) and 'udp' in txt( a_.test ).lower() ] if sibs else []
+            if guard_ and ( isinstance( guard_[0], ast.Assert ) or any( isinstance( x_, ast.Raise ) for x_ in guard_[0].body )):
+                res.ok( csrc, guard_[0], 'client.__next__: over UDP a response that ends inside a frame is refused, not awaited' )
+            else:
+                res.bad( csrc, r_, 'client.__next__ waits for more input inside a frame whatever the transport', 'over UDP the datagrams are then treated as a byte stream: a truncated reply datagram is completed from the header of the NEXT reply, and values spliced from two replies are delivered with status 0' )
     if RCVD is None or not nothing or not eloops:
         raise AnalysisError( 'client.__next__: the `%s is [not] None` branch after the receive, or the engine loop, not found' % RCVD )
     if any( e in cfg.reachable( nothing ) for e in eloops ):
@@ -3270,6 +3281,20 @@ def e_reply( ctx ):
         h = tries[0].handlers[0] if tries and tries[0].handlers else fn
         res.bad( src, h, 'process: failure of the CIP-level parse of a complete frame is re-raised',
                  'a complete, well-formed encapsulation frame carrying an unsupported command (or a payload the CIP parser rejects) is not answered at all: the exception propagates, the connection handler drops the session, and the client waits for a reply that never comes', func='process' )
+    # ---- a response that cannot be FRAMED: the encapsulation header carries the payload length as a UINT; UCMM.request - inside the try that
+    # turns failures into a non-zero status - refuses a response payload above 0xFFFF octets ( a reply of 65520..65535 CIP octets still fits
+    # its CPF item, the item plus its 16 octets of CPF framing does not: the frame encoder then raises in the connection handler, outside
+    # every reply path - no reply at all )
+    usrc = ctx.src( UCMM )
+    ur = usrc.get( 'UCMM.request' )
+    bounds = [ c_ for c_ in ast.walk( ur ) if isinstance( c_, ast.Compare ) and len( c_.ops ) == 1 and is_call_to( c_.left, 'len' ) and 'input' in txt( c_.left )
+               and try_fold( c_.comparators[0] ) in ( 0xFFFF, 0x10000, 65535, 65536 ) ]
+    conv_try = [ t_ for t_ in ast.walk( ur ) if isinstance( t_, ast.Try ) and any(( h_.type is None or dotted( h_.type ) in ( 'Exception', 'BaseException' )) and not any( isinstance( x_, ast.Raise ) for x_ in ast.walk( h_ )) for h_ in t_.handlers ) ]
+    inside_ = [ b_ for b_ in bounds if any( any( b_ is x_ for s_ in t_.body for x_ in ast.walk( s_ )) for t_ in conv_try ) ]
+    if inside_:
+        res.ok( usrc, inside_[0], 'UCMM.request refuses a response that exceeds the encapsulation length field' )
+    else:
+        res.bad( usrc, ur, 'UCMM.request hands back a response payload of any length', 'a response whose CIP part is 65520..65535 octets long fits its CPF item but not the UINT length of the encapsulation header: the frame encoder raises in the connection handler and the request gets no reply at all', func='UCMM.request' )
     return res
 
 
